@@ -815,6 +815,68 @@ func ruleLexClass(p *Prog, r *Report) {
 				Accept: func(v []Val) bool { return v[0].I.Int64() != ttComment }})
 		}
 	}
+	commentAfterEveryToken(p, r, rule)
+}
+
+// commentAfterEveryToken: a line comment may follow any token, with or
+// without a blank in between. For one sample of every token kind (for names,
+// numbers, variables and ellipses one of every shape) placed at the end of a
+// line, the library's lexer - its state functions evaluated one after the
+// other on the text - must yield the same tokens, comments aside, for
+// "T", "T //c" and "T//c".
+func commentAfterEveryToken(p *Prog, r *Report, rule string) {
+	key := rule + ":comment-after-token"
+	ttComment, ok := smlConst(p, "tokenTypeComment")
+	if !ok {
+		r.unk(rule, key, "", "tokenTypeComment not found")
+		return
+	}
+	type sample struct{ pre, tok, post string }
+	// the rest of the header goes on the next line: a comment runs to the end of its line
+	header := func(pre, tok, post string) sample { return sample{pre, tok, "\n" + post + "\n<L>\n."} }
+	text := func(tok string) sample { return sample{"S1F1\n<L\n", tok, "\n>\n."} }
+	samples := []sample{
+		header("", "S1F1", " W H->E"), header("", "s127f255", ""), header("S1F1 ", "W", " H->E"), header("S1F1 ", "[W]", ""),
+		header("S1F1 W ", "H->E", ""), header("S1F1 ", "H<->E", " Name"), header("S1F1 W H->E ", "N", ""), header("S1F1 W H->E ", "Name_1", ""),
+		header("S1F1 H->E ", "名", ""), header("S1F1 ", "ab", " H->E"),
+		text("<"), text("<L"), text("<BOOLEAN"), text("<A[2]"), text("<U1 [1..2]"), text("<A \"x y\""), text("<U1 1"), text("<I2 -0x1F"), text("<F4 1.5e3"),
+		text("<B 0b101"), text("<BOOLEAN T"), text("<A v"), text("<A var_1[2]"), text("<L ..."), text("<L ...[1]"), text("<L>"), text("<L> ."),
+	}
+	var bad, undec []string
+	n := 0
+	for _, sm := range samples {
+		var streams []string
+		for _, sep := range []string{"", " // c", "//c", "\t//\r"} {
+			toks, ok := lexAll(p, "lexMessageHeader", sm.pre+sm.tok+sep+sm.post, 300)
+			if !ok {
+				undec = append(undec, fmt.Sprintf("the text %q could not be lexed by evaluation", sm.pre+sm.tok+sep+sm.post))
+				streams = nil
+				break
+			}
+			var l []string
+			for _, t := range toks {
+				if t.typ != ttComment {
+					l = append(l, fmt.Sprintf("%d:%s", t.typ, t.val))
+				}
+			}
+			streams = append(streams, strings.Join(l, " "))
+		}
+		n++
+		for i := 1; i < len(streams); i++ {
+			if streams[i] != streams[0] {
+				bad = append(bad, fmt.Sprintf("a comment right after %q changes the tokens: without it [%s], with it [%s]", sm.tok, streams[0], streams[i]))
+				break
+			}
+		}
+	}
+	switch {
+	case len(bad) > 0:
+		r.bad(rule, key, "", strings.Join(firstN(bad, 3), "; "))
+	case len(undec) > 0:
+		r.unk(rule, key, "", strings.Join(firstN(undec, 2), "; "))
+	default:
+		r.ok(rule, key, "", fmt.Sprintf("for a sample of each of %d token shapes at the end of a line, the lexer evaluated on the text yields the same tokens with no comment, a spaced comment and an abutting comment", n))
+	}
 }
 
 // ---------------------------------------------------------------------------
